@@ -125,6 +125,21 @@ def fold_events(effs, outer):
                     yield x
 
 
+def skipped_steps(effs):
+    """loops whose iterations do not all perform the same fold steps (a step guarded by a condition on the element)"""
+    out = []
+    for e in effs:
+        if e[0] != 'loop':
+            continue
+        sigs = set()
+        for b in e[3]:
+            sigs.add(tuple(sorted((k, absint.term_str(el)[:60]) for k, tgt, el, sel in fold_events(b['eff'], None))))
+            out += skipped_steps(b['eff'])
+        if len(sigs) > 1 and any(s_ for s_ in sigs):
+            out.append(sorted(len(s_) for s_ in sigs))
+    return out
+
+
 def run(ctx):
     _run(ctx)
     ctx.delegate("C19", ["C19.pred"], "C05.dims",
@@ -237,6 +252,10 @@ def _run(ctx):
                 if not covers_all(allsets, depth):
                     good = False
                     why.append("%s steps %s + seeds %s do not cover every vertex" % (kind, sels[kind], seedsets))
+            sk = skipped_steps(p.eff)
+            if sk:
+                good = False
+                why.append("some iterations skip fold steps (steps per iteration: %s): vertices of those elements are not covered" % sk[:2])
             # each loop body applies both
             if sorted(sels['shrink']) != sorted(sels['grow']):
                 good = False
@@ -404,6 +423,17 @@ def _run(ctx):
             if not (is_agg(mx) and is_agg(mn) and all(x[1] == ('f64', '-1.7976931348623157e308') for x in mx[4])
                     and all(x[1] == ('f64', '1.7976931348623157e308') for x in mn[4])):
                 good = False
+        early = True
+        for p in first:
+            effs_ = list(absint.flat_effects(p.eff))
+            sent = [i for i, e in enumerate(effs_) if e[0] == 'store' and e[1] == wm.selfpath(W.header_field, 'bbox')]
+            ios_ = [i for i, e in enumerate(effs_) if e[0] == 'io']
+            if sent and ios_ and min(sent) > min(ios_):
+                early = False
+        ctx.ob("C05.header", "sentinels before the first I/O", early and bool(first),
+               "the first write installs the sentinels before its first fallible operation (with the file's type), so a write that "
+               "fails while reserving the header and is retried still starts from the sentinels",
+               site=ctx.site_of(F, fw["def"]), key="C05.header|sentinels-early")
         ctx.ob("C05.header", "sentinels on first write", good, "first write installs max = -f64::MAX, min = +f64::MAX in all four dimensions",
                site=ctx.site_of(F, fw["def"]), key="C05.header|sentinels")
         ff, psf = W.method_paths('finalize')
